@@ -111,6 +111,20 @@ def impl(case):
                            stored=[int(s) in stored for s in sid])
                 if len(exist):
                     w = m.get_waveforms(exist, ch)
+                    # the waveforms the features are computed from are each spike's OWN raw window (C03) on the
+                    # channels the store holds for it, zeros elsewhere - recomputed here from the raw data
+                    from phylib.io.traces import extract_waveforms
+                    w_raw = extract_waveforms(m.traces, np.asarray(m.spike_samples)[exist], list(ch),
+                                              n_samples_waveforms=m.n_samples_waveforms)
+                    row_of = {int(s): k for k, s in enumerate(sw.spike_ids)}
+                    own = True
+                    for i, s_ in enumerate(exist):
+                        held = set(int(c) for c in sw.spike_channels[row_of[int(s_)]])
+                        for j, c in enumerate(ch):
+                            exp_col = w_raw[i, :, j] if int(c) in held else np.zeros(w_raw.shape[1])
+                            if not np.array_equal(np.asarray(w[i, :, j], dtype=np.float64), np.asarray(exp_col, dtype=np.float64)):
+                                own = False
+                    res['waveforms_own'] = own
                     fe = compute_features(w)
                     pos = {int(s): i for i, s in enumerate(sid)}
                     res['placed'] = all(np.array_equal(out[pos[int(s)]], fe[i].astype(out.dtype)) for i, s in enumerate(exist))
@@ -204,6 +218,8 @@ def judge(case, impl_res, ans):
         for i, (z, s) in enumerate(zip(ok['zero_rows'], ok['stored'])):
             if not s and not z:
                 return 'SPEC: PCA route: spike without extracted waveform has non-zero features'
+        if ok.get('waveforms_own') is False:
+            return 'SPEC: PCA route: the waveform a spike\'s features are computed from is not that spike\'s own raw window on its stored channels'
         if ok.get('placed') is False or ok.get('proj_ok') is False:
             return 'SPEC: PCA route: features are not the projections placed at the requested positions'
         if 'resid' in ok and (ok['resid'] > 1e-3 * max(1., ok['scale'] ** 2) or not ok['order_ok']):
@@ -396,5 +412,8 @@ def gen(tier, rng):
         spec = D.random_spec(rng, raw=True, feats=False, tfeats=False, ns=rng.randrange(6, 14), nsw=rng.randrange(3, 6))
         nc = spec['n_channels']
         ns = len(spec['spike_samples'])
-        yield dict(p=PID, op='pca', spec=spec, spike_ids=sorted(rng.sample(range(ns), rng.randrange(1, ns + 1))),
+        sids_p = rng.sample(range(ns), rng.randrange(1, ns + 1))
+        if i % 2:
+            sids_p = sorted(sids_p)
+        yield dict(p=PID, op='pca', spec=spec, spike_ids=sids_p,
                    chans=sorted(rng.sample(range(nc), rng.randrange(1, nc + 1))), nst=rng.randrange(1, 4), nc=nc)
